@@ -4,7 +4,6 @@ import (
 	"fmt"
 	"log"
 	"net"
-	"os"
 	"path/filepath"
 	"strings"
 	"time"
@@ -164,7 +163,12 @@ func RecoverNode(dataDir string, extensions []string, logger *log.Logger, logs r
 
 	// Get a path to a temporary file to use for a temporary database.
 	tmpDBPath := filepath.Join(dataDir, "recovery.db")
-	defer os.Remove(tmpDBPath)
+	// An earlier recovery (or one that did not finish) may have left the temporary database or its
+	// WAL files behind: they must neither block the restore of the snapshot nor be replayed into it.
+	if err := sql.RemoveFiles(tmpDBPath); err != nil {
+		return fmt.Errorf("failed to remove stale temporary database: %s", err)
+	}
+	defer sql.RemoveFiles(tmpDBPath)
 
 	// Attempt to restore any latest snapshot.
 	var (
